@@ -24,6 +24,11 @@ for p in props:
         na.append({'property_id': pid, 'reason': 'check not built yet (work in progress, see DESIGN.md section 9)'})
         continue
     served.append(pid)
+    try:
+        from harness.props import _extra
+        meta = dict(meta, text=meta['text'] + _extra.EXTRA_TEXT.get(pid, ''))
+    except ImportError:
+        pass
     checks.append({
         'property_id': pid,
         'quick_cmd': './check %s --tier quick' % pid,
